@@ -73,7 +73,13 @@ RULE = ('abstract hit lists (1-8 hits; all nine sign combinations of subject/que
         'or outfmt= (shuffled column subsets keeping the coordinate columns), optional sstrand (consistent, contradicting, N/A), '
         'CRLF, file or StringIO transport; plus a raw mutation stream (character edits, dropped/duplicated lines). '
         'non-trivial = distinct case whose marker (style, column mode, set of orientations, error kind) is not the default '
-        'plus/plus BLAST-6 row')
+        'plus/plus BLAST-6 row. State-independence stream: every rendering with the hit order permuted (a hit without direction '
+        'first / after a minus hit / after a plus hit, with and without strand column), and histories of 3-11 reads in one pristine '
+        'process (same text twice and through the other transport; same text with other outfmt/ftype/dialect in both orders; files of '
+        'different dialects and column sets in varying order; comments= lists new and shared across reads with header lines; '
+        'everything a read returned vandalised before the next read; one outfmt text handed to two dialects; reads after a read '
+        'that raised half way, including tables wider than any Infernal table); each step is compared with the pure model on that '
+        "step's input and with the first-principles oracle")
 TRUSTED = ['CPython int()/float()/str.split/strip/startswith and text-mode line iteration (modelled, compared on every case)',
            'float values: the model keeps the decimal literal; the harness converts it with fractions.Fraction and compares bit patterns',
            'modelled: sugar/_io/tab/core.py _headers_from_fmtstrings, read_tabular; the blast/mmseqs/infernal reader wrappers; '
@@ -543,8 +549,8 @@ def gen_hist(rng, n):
 
 def gen_cases(rng, tier):
     cases = directed_cases() + order_cases()
-    cases += gen_hist(rng, 3000 if tier == 'thorough' else 300)
-    n = 22000 if tier == 'thorough' else 900
+    cases += gen_hist(rng, 3000 if tier == 'thorough' else 240)
+    n = 20000 if tier == 'thorough' else 700
     for _ in range(n):
         c = rand_case(rng)
         cases.append(c)
@@ -618,9 +624,81 @@ def vandalise(fts, d, cm):
         cm.append('# VANDAL\n')
 
 
+# Histories run in a fork of a pristine "zygote" interpreter that has imported sugar but never read anything: every history
+# starts from the state of a fresh process, so a replay (or a shrunk history) depends on the case dict alone, whatever the
+# other cases of the run left behind in this process.
+_ZYG = None
+
+
+def _zygote_kill():
+    global _ZYG
+    if _ZYG is not None:
+        try:
+            _ZYG.kill()
+            _ZYG.wait(timeout=5)
+        except Exception:
+            pass
+        _ZYG = None
+
+
+def _zygote():
+    global _ZYG
+    import subprocess, sys, atexit
+    if _ZYG is None or _ZYG.poll() is not None:
+        tools = os.path.dirname(os.path.dirname(os.path.abspath(__file__)))
+        _ZYG = subprocess.Popen([sys.executable, '-W', 'ignore', '-c',
+                                 'import sys; sys.path.insert(0, %r); from props import c11; c11.zygote_main()' % tools],
+                                stdin=subprocess.PIPE, stdout=subprocess.PIPE, text=True)
+        atexit.register(_zygote_kill)
+    return _ZYG
+
+
+def zygote_main():
+    import sys, json
+    import sugar, sugar._io.tab.core, sugar._io.tab.blast, sugar._io.tab.mmseqs, sugar._io.tab.infernal   # imported, never used here
+    import framework                                                                                          # noqa
+    for line in sys.stdin:
+        case = json.loads(line)
+        r, w = os.pipe()
+        pid = os.fork()
+        if pid == 0:
+            try:
+                os.close(r)
+                try:
+                    res = impl_hist(case)
+                except BaseException as e:
+                    res = {'e': type(e).__name__}
+                with os.fdopen(w, 'w') as f:
+                    f.write(json.dumps(res))
+            finally:
+                os._exit(0)
+        os.close(w)
+        with os.fdopen(r) as f:
+            data = f.read()
+        os.waitpid(pid, 0)
+        sys.stdout.write((data or json.dumps({'e': 'HistoryRunnerDied'})) + '\n')
+        sys.stdout.flush()
+
+
 def impl(case):
     if 'hist' not in case:
         return impl_step(case)[0]
+    import json
+    try:
+        z = _zygote()
+        z.stdin.write(json.dumps(case) + '\n')
+        z.stdin.flush()
+        line = z.stdout.readline()
+    except BaseException:
+        _zygote_kill()            # also on the framework's timeout alarm: never reuse a runner that is out of step
+        raise
+    if not line:
+        _zygote_kill()
+        raise RuntimeError('history runner died')
+    return json.loads(line)
+
+
+def impl_hist(case):
     from framework import canon_exc
     out, shared = [], None
     for st in case['hist']:
@@ -972,6 +1050,8 @@ LEVEL_NOTE = ('Trusted: Coq kernel/vm_compute, tools/gens/c11.py (tables), the c
               'halves are proved separately: C11_read_infernal / C11_read_blast7 / C11_read_mmseqs4 / C11_read_outfmt_file and '
               'C11_rows_features_carry, C11_text_dialect_independent), the sniffers is_fts_* (property C03). '
               'Statement coverage of the modelled functions in the quick tier: 86/86, no unreachable lines. '
+              'State independence (no caches or shared objects between reads, rows or dialects) is not a theorem about sugar: the model '
+              'is pure by construction and the history stream compares every step of multi-read histories with it. '
               'Rows without a direction take the strand of the sstrand column (plus/minus words mapped, commit 7bd306b). '
               'All theorems closed under the global context.')
 TECHNIQUE = 'Coq proof (lia + finite table enumeration) over a Gallina model; differential correspondence model vs sugar.read_fts'
